@@ -8,6 +8,8 @@
 From Coq Require Import List ZArith Bool.
 Import ListNotations.
 Require Import Gram.Model.Term Gram.Model.DeBruijn Gram.Model.Eval Gram.Spec.Cbv Gram.Proofs.CbvProofs.
+Require Import Gram.Model.ModelB Gram.Spec.Typing Gram.Proofs.ConfluenceTyping Gram.Proofs.ConvConsistent Gram.Proofs.SafetyHF.
+Require Gram.Proofs.ConfluenceEval Gram.Proofs.TcSoundHF.
 
 Theorem C01_stuck_classified : forall t, step t = None -> is_value t = false ->
   exists E r k, ectx_ok E = true /\ t = plug E r /\ stuck_redex r k /\ stuck_reason t = Some k.
@@ -36,3 +38,35 @@ Proof. eexists. exact d7_witness. Qed.
 Check C01_progress_refuted_D7 :
   exists p, step p = None /\ is_value p = false /\ stuck_reason p = Some FreeVariable.
 Print Assumptions C01_progress_refuted_D7.
+
+(* Progress IS a theorem where the recorded findings cannot occur: fully annotated (hole-free: no D9, D14, D19)
+   programs without definition groups (no D7). Whatever the checker model accepts without a diagnostic evaluates -
+   for every amount of fuel - to a value of the reported type, or to a term stuck on a division by zero, and to
+   nothing else: soundness of the checker model (Proofs/TcSoundHF.v) composed with progress and preservation of the
+   declarative system (Proofs/ConvConsistent.v, from confluence). With groups the typing rules themselves admit
+   `x : int = x; x` (C01_typing_alone_admits_unproductive_groups): availability of definitions is the business of
+   parse()'s definition-order check, which is where D7 lives. *)
+Theorem C01_accepted_programs_are_safe : forall f t r g v,
+  hole_free t = true -> ConfluenceEval.no_let t = true ->
+  tcB f [] [] [] t = Some r -> b_errs r = [] ->
+  evaluate g t = Some v ->
+  exists T, TcSoundHF.zk (b_st r) (b_ty r) T /\ has_type [] v T /\ (is_value v = true \/ div_stuck v).
+Proof. exact accepted_programs_are_safe. Qed.
+Check C01_accepted_programs_are_safe : forall f t r g v,
+  hole_free t = true -> ConfluenceEval.no_let t = true ->
+  tcB f [] [] [] t = Some r -> b_errs r = [] ->
+  evaluate g t = Some v ->
+  exists T, TcSoundHF.zk (b_st r) (b_ty r) T /\ has_type [] v T /\ (is_value v = true \/ div_stuck v).
+Print Assumptions C01_accepted_programs_are_safe.
+
+Theorem C01_progress : forall t T, has_type [] t T -> hole_free t = true -> ConfluenceEval.no_let t = true ->
+  is_value t = true \/ (exists t', step t = Some t') \/ div_stuck t.
+Proof. exact progress_has_type. Qed.
+Check C01_progress : forall t T, has_type [] t T -> hole_free t = true -> ConfluenceEval.no_let t = true ->
+  is_value t = true \/ (exists t', step t = Some t') \/ div_stuck t.
+Print Assumptions C01_progress.
+
+Theorem C01_typing_alone_admits_unproductive_groups : ltac:(let T := type of group_progress_fails in exact T).
+Proof. exact group_progress_fails. Qed.
+Check C01_typing_alone_admits_unproductive_groups : has_type [] loop_group TInt /\ _ /\ _ /\ _ /\ stuck_reason loop_group = Some FreeVariable /\ _.
+Print Assumptions C01_typing_alone_admits_unproductive_groups.
